@@ -18,7 +18,7 @@ ASSUMPTIONS = _c11.ASSUMPTIONS + [
     'L3 (a worker created with a context id runs the context\'s target with its defaults) rests on C15.L1 for the root object (patches _target/_args/_kwargs reach the unpickled RemoteWorker); the hand-over of the client socket to the context helper is the obligation "ctx.call(cli)" of the accept loop; the helper itself is under contract (L3, L4, L4b)',
     'L4: "terminated" means terminate(timeout=1, force=True) was invoked on the worker object the helper holds; that this leaves the backend process dead is C04 (server side) on top of T4',
 ]
-MUTANTS = [m for m in _c11.MUTANTS if 'control' not in m[3]] + [
+MUTANTS = [m for m in _c11.MUTANTS if m[0].endswith('remote_server.py')] + [       # the accept loop's mutants; C11.L2 / L4 (remote.py) belong to C11 only
     ('pyworkers/remote_context.py', "            if not result:\n                raise ValueError(", "            if result is None:\n                raise ValueError(", 'client accepts a False reply to a create request'),
     ('pyworkers/remote_context.py', "            self._alive = not result\n", "            self._alive = False\n", 'client forgets a context the server could not delete'),
     ('pyworkers/remote_context.py', "                '_target': self._target,\n", "", 'a worker sent to a context keeps its own target'),
